@@ -95,6 +95,8 @@ Proof.
     destruct (decode_crc _ s2) as [[crc s3]| | |]; cbn in Hc; try contradiction.
     2: { cbn. (split; [split; discriminate|]). apply release_inv. exact Hi2. }
     destruct Hc as [Hi3 _]. cbn. (split; [split; discriminate|]). apply reset_state_inv, release_inv. exact Hi3.
+  - (* DecodeWithContext, context already done *)
+    destruct (a_err a); cbn; (split; [split; discriminate|]); exact Hi.
   - (* Next *)
     destruct (a_err a); [cbn; (split; [split; discriminate|]); exact Hi|].
     destruct (s_n (a_s a) =? 0); [cbn; (split; [split; discriminate|]); exact Hi|].
